@@ -2,6 +2,8 @@ import Gallia.Proofs.Lemmas.UdsResp
 import Gallia.Gen.C02Registry
 import Gallia.Proofs.Lemmas.UdsRespCtor
 import Gallia.Gen.C02Ctor
+import Gallia.Proofs.Lemmas.UdsRespFields
+import Gallia.Gen.C02Fields
 /-
   C02 — Decoded UDS responses expose the received fields and re-encode to the same bytes.
   Property theorems only; helper lemmas are in `Proofs/Lemmas/UdsResp.lean`.
@@ -584,5 +586,66 @@ example : construct "ReadDataByIdentifierResponse" (.rdbi [1, 2] [[0x61], [0x62]
 example : construct "ReportDTCByStatusMaskResponse" (.dtcListD 0xFF [(1, 2), (3, 4)]) = some (.dtcList 2 0xFF [(1, 2), (3, 4)]) := by
   decide
 example : construct "RequestDownloadResponse" (.upDownload 0x1234 (some 0x40)) = some (.upDownload 0x74 0x40 0x1234) := by decide
+
+/-! ### every attribute of every response class at its ISO position (one table, regenerated from the live classes) -/
+
+/-- (T) the table class → [(attribute leaf, how, offset, width)] probed from the live classes on marker PDUs on every run
+    equals the model's `layoutOf` for every registry class: a class or attribute that appears in the code and not in the
+    model (or the other way round, or at another position / width / rule) breaks this obligation -/
+theorem fieldTable_agrees : Gen.C02Fields.fieldTable = fieldRows := by decide +kernel
+
+/-- the table has a row list for every class of the registry -/
+theorem fieldsAt_total (b : Bytes) : ∀ e ∈ registry, (fieldsAt e.cls b).isSome = true := by
+  intro e he
+  have := find_cls e he
+  unfold fieldsAt
+  cases hf : registry.find? (fun x => x.cls == e.cls) with
+  | none => rw [hf] at this; cases this
+  | some e1 => rfl
+
+/-- **every field at its position**: for every class of the table and every byte string `decodeResp` accepts as that
+    class, the attribute leaves of the decoded object (all of them: `leaves`) are `fieldsAt` of the received bytes — the
+    ISO position slices named by the table. For ALL byte strings; the selected `decode_*` lemmas above are instances. -/
+theorem every_field_at_its_position (b : Bytes) (r : Resp) (e : Entry) (h : decodeResp b = .ok r)
+    (hd : dispatch b = .ok (some e)) : fieldsAt e.cls b = some (leaves r) := by
+  have hk := decodeResp_kind b r e h hd
+  obtain ⟨e1, hd1, hl, _, hp⟩ := decodeResp_typed h (by simp [hk])
+  rw [hd] at hd1
+  cases hd1
+  have hmem := (dispatch_spec hd).1
+  have hf := find_cls e hmem
+  unfold fieldsAt
+  cases hfe : registry.find? (fun x => x.cls == e.cls) with
+  | none => rw [hfe] at hf; cases hf
+  | some e2 =>
+    rw [hfe] at hf
+    simp only [Option.map_some, Option.some.injEq] at hf
+    simp only [Option.map_some, Option.some.injEq]
+    rw [leaves_eq_fieldsOf hl hp]
+    unfold fieldsOf
+    rw [hf]
+
+/-- the same, named by the class the decoder reports: whenever `decodeResp` returns a typed object, its leaves are the
+    table's slices for `className b` -/
+theorem every_field_at_its_position_by_name (b : Bytes) (r : Resp) (h : decodeResp b = .ok r) (hr : r.kind? ≠ none) :
+    fieldsAt (className b) b = some (leaves r) := by
+  obtain ⟨e, hd, hl, hs, _⟩ := decodeResp_typed h hr
+  have : className b = e.cls := by simp [className, gate, hd, checkEntry, hl, hs]
+  rw [this]
+  exact every_field_at_its_position b r e h hd
+
+/-- raw responses expose no typed field -/
+theorem raw_exposes_nothing (b p : Bytes) (h : decodeResp b = .ok (.rawPos p)) : leaves (.rawPos p) = [] ∧ p = b :=
+  ⟨rfl, (decodeResp_raw h).1⟩
+
+example : fieldsAt "WriteMemoryByAddressResponse" [0x7D, 0x12, 0xAA, 0xBB, 0xCC] =
+    some [("address_and_length_format_identifier", .int 0x12), ("memory_address", .int 0xAABB), ("memory_size", .int 0xCC)] := by
+  decide +kernel
+example : fieldsAt "ReportDTCByStatusMaskResponse" [0x59, 0x02, 0xFF, 0, 0, 1, 8, 0, 0, 2, 9] =
+    some [("dtc_and_status_record{}", .recs [(1, 8), (2, 9)]), ("dtc_status_availability_mask", .int 0xFF), ("sub_function", .int 2)] := by
+  decide +kernel
+example : fieldsAt "ClearDynamicallyDefinedDataIdentifierResponse" [0x6C, 0x03] =
+    some [("dynamically_defined_data_identifier", .none), ("sub_function", .int 3)] := by decide +kernel
+example : dispatch [0x7D, 0x12, 0xAA, 0xBB, 0xCC] = .ok (some registry[33]) := by rfl
 
 end Gallia.C02
